@@ -2071,7 +2071,7 @@ Definition ev_task (e : event) : option Z :=
   end.
 
 Lemma tstepE_only s e x x' : tstepE s e x x' -> x' = x \/ ev_task e = Some (k_id x).
-Proof. intros H. destruct H; cbn; try (left; reflexivity); right; try congruence. Show. Qed.
+Proof. intros H. destruct H; cbn; try (left; reflexivity); right; subst; reflexivity. Qed.
 
 (** ** the plan facts about the final task, as an invariant *)
 Definition final_inv (s : state) : Prop :=
@@ -2163,3 +2163,296 @@ Proof.
   - rewrite (C k x Hx Ht Hk) in Hh. discriminate.
   - rewrite Ht in Hnd. rewrite Hd in Hnd; [discriminate|eauto].
 Qed.
+
+(** ** the error path: after the wait every other task has ended (or was never called) *)
+Definition settled (x : task) : Prop := k_st x = TEnded \/ (k_stage x = SInline /\ k_st x = TQueued).
+
+Lemma waitall_settled s t kS S :
+  tb_inv s -> window_inv s ->
+  find_task kS (tasks s) = Some S -> k_kind S = KSubmission -> k_t S = t ->
+  busy s kS = false -> all_assoc_done s t = true ->
+  forall k x, find_task k (tasks s) = Some x -> k_t x = t -> k_kind x <> KSubmission -> settled x.
+Proof.
+  intros [TB U] W HS HSk HSt Hnb Hall k.
+  induction k as [k IH] using (well_founded_induction (Z.lt_wf 0)).
+  intros x Hx Ht Hk.
+  destruct (TB k x Hx) as [_ B2 _ B4 B5 B6 _ _]. destruct (B2 Hk) as (_ & Hlt & _).
+  pose proof (find_task_some_id _ _ _ Hx) as Hid.
+  destruct (holds_parent x) eqn:Hh.
+  - exfalso. destruct (W k x Hx Hh) as (p & Hp & Hpt & Hpa).
+    pose proof (holds_parent_busy _ _ _ Hx Hh) as Hb.
+    destruct (Z.eq_dec (k_kind p) KSubmission) as [Hpk|Hpk].
+    + assert (k_parent x = kS) by (eapply U; eauto; congruence). congruence.
+    + destruct (TB _ p Hp) as [_ _ _ P4 _ _ _ _]. pose proof (find_task_some_id _ _ _ Hp) as Hpid.
+      assert (Hs : settled p) by (apply (IH (k_parent x)); [lia|exact Hp|congruence|exact Hpk]).
+      unfold settled, acting_st in *. destruct Hs as [Hs|[_ Hs]]; destruct Hpa; congruence.
+  - unfold settled. destruct (stage_eqb (k_stage x) SInline) eqn:Es.
+    + apply stage_eqb_eq in Es.
+      destruct (k_st x) eqn:Est; auto; exfalso;
+        (assert (Hc : holds_parent x = true); [|congruence]); apply holds_parent_spec; left;
+        rewrite Est; repeat split; auto; discriminate.
+    + left. assert (Hs : k_stage x <> SInline) by (intros E; rewrite E in Es; discriminate).
+      assert (Ha : k_assoc x <> 0).
+      { intros Ha. assert (Hc : holds_parent x = true); [|congruence]. apply holds_parent_spec. right. auto. }
+      destruct B6 as [Ha0|[Ha1|Ha2]]; [contradiction| |auto].
+      unfold all_assoc_done in Hall. rewrite forallb_forall in Hall.
+      specialize (Hall x (find_task_in _ _ _ Hx)). apply orb_prop in Hall as [Hn|He].
+      * apply negb_true_iff in Hn. apply andb_false_iff in Hn as [Hn|Hn]; lia.
+      * now apply tst_eqb_true.
+Qed.
+
+Definition ann_cause (s : state) (t : Z) : Prop :=
+  (exists kf f, find_task kf (tasks s) = Some f /\ k_t f = t /\ k_final f = true /\ past_main (k_st f) = true) \/
+  (exists kS S, find_task kS (tasks s) = Some S /\ k_t S = t /\ k_kind S = KSubmission /\ 4 <= k_phase S) \/
+  (exists c, find_coord t (coords s) = Some c /\ (c_owing c <> [] \/ c_ann_started c = true)).
+
+Definition calm_inv (s : state) : Prop := forall t, ann_cause s t -> calm s t.
+
+Lemma ann_cause_done s t : T1_inv s -> ann_cause s t -> coord_done s t = true.
+Proof.
+  intros (I1 & I2 & _ & I4) [(kf & f & Hf & Ht & Hfin & Hpm)|[(kS & S & HS & Ht & Hk & Hp)|(c & Hc & Hor)]].
+  - rewrite <- Ht. eapply I1; eauto.
+  - rewrite <- Ht. eapply I2; eauto. lia.
+  - unfold coord_done. rewrite Hc. apply (I4 t c Hc). unfold ann_trig. tauto.
+Qed.
+
+Record base_inv (s : state) : Prop := {
+  bi_t1 : T1_inv s;
+  bi_tb : tb_inv s;
+  bi_win : window_inv s;
+  bi_fin : final_inv s;
+  bi_deps : deps_inv s;
+  bi_io : io_inv s;
+  bi_w : g_workers (st_io s) = 1;
+  bi_ns : ns_inv s
+}.
+
+Lemma workers_step s e s' : step s e = Some s' -> g_workers (st_io s') = g_workers (st_io s).
+Proof.
+  intros H. pose proof (io_frame _ _ _ H) as Hf.
+  destruct e; try (exact (proj2 Hf)).
+  - destruct (find_task k (tasks s)) as [x|] eqn:Ex; [|cbn [step] in H; rewrite Ex in H; discriminate].
+    exact (proj1 (start_io _ _ _ _ H Ex)).
+  - destruct (find_task k (tasks s)) as [x|] eqn:Ex;
+      [|cbn [step] in H; destruct (busy s k); [discriminate|]; rewrite Ex in H; discriminate].
+    exact (proj1 (end_io _ _ _ _ H Ex)).
+Qed.
+
+Lemma base_inv_step s e s' : base_inv s -> step s e = Some s' -> base_inv s'.
+Proof.
+  intros [B1 B2 B3 B4 B5 B6 B7 B8] H. constructor.
+  - eapply T1_inv_step; eauto.
+  - eapply tb_inv_step; eauto.
+  - eapply window_inv_step; eauto.
+  - eapply final_inv_step; eauto.
+  - eapply deps_inv_step; eauto.
+  - eapply io_inv_step; eauto.
+  - rewrite (workers_step _ _ _ H). exact B7.
+  - eapply ns_inv_step; eauto.
+Qed.
+
+Lemma not_hot_of_inactive x : k_stage x = SIO -> io_active x = false -> hot (k_st x) = false.
+Proof.
+  unfold io_active. intros -> H. cbn in H. destruct (k_st x); try reflexivity; discriminate.
+Qed.
+
+(** when the final task is past its dependencies and running, every other task of the transfer is cold *)
+Lemma final_running_calm s kf f :
+  base_inv s -> find_task kf (tasks s) = Some f -> k_final f = true ->
+  (k_st f = TDeps \/ k_st f = TMain \/ k_st f = TFailed) ->
+  forall k x, find_task k (tasks s) = Some x -> k_t x = k_t f -> k_kind x <> KSubmission -> k <> kf ->
+  hot (k_st x) = false.
+Proof.
+  intros [_ _ _ BF BD BIO BW _] Hf Hfin Hst k x Hx Ht Hk Hne.
+  destruct (BF kf f k x Hf Hx Hfin Ht Hne) as [_ [Ho|[Ho|[Ho|[Ho1 Ho2]]]]].
+  - contradiction.
+  - assert (Ha : after_deps (k_st f) = true) by (destruct Hst as [->|[->| ->]]; reflexivity).
+    destruct (BD kf f k Hf Ha Ho) as (y & Hy & Hye). rewrite Hx in Hy. injection Hy as <-. now rewrite Hye.
+  - destruct (k_st x); try reflexivity; discriminate.
+  - assert (Haf : io_active f = true).
+    { unfold io_active. rewrite Ho2. destruct Hst as [->|[->| ->]]; reflexivity. }
+    apply not_hot_of_inactive; [exact Ho1|]. destruct (io_active x) eqn:Eax; [exfalso|reflexivity].
+    destruct (BIO BW) as [[_ Hno]|[_ (k0 & Hk0)]].
+    + rewrite (Hno kf f Hf) in Haf. discriminate.
+    + pose proof (Hk0 kf f Hf Haf). pose proof (Hk0 k x Hx Eax). congruence.
+Qed.
+
+Lemma calm_inv_step s e s' : base_inv s -> calm_inv s -> step s e = Some s' -> calm_inv s'.
+Proof.
+  intros B I H t Hc'.
+  assert (Hold : ann_cause s t -> calm s' t).
+  { intros Hc. eapply calm_step; [apply I; exact Hc|exact H|]. intros _.
+    apply ann_cause_done; [apply B|exact Hc]. }
+  destruct Hc' as [(kf & f' & Hf' & Ht & Hfin & Hpm)|[(kS & S' & HS' & Ht & Hk & Hp)|(c' & Hc' & Hor)]].
+  - (* a final task past its main *)
+    destruct (task_origin _ _ _ _ _ H Hf') as [(f & Hf & Hts)|(_ & t1 & g & a & fin & deps & kind & _ & ->)].
+    2:{ cbn in Hpm. destruct (stage_eqb g SInline); discriminate. }
+    statics Hts. rewrite St in Ht. rewrite Sfin in Hfin.
+    destruct (past_main (k_st f)) eqn:Epm.
+    { apply Hold. left. eauto 10. }
+    assert (Hst : k_st f = TDeps \/ k_st f = TMain \/ k_st f = TFailed).
+    { destruct Hts; cbn [k_st with_st with_flags with_phase with_permit with_assoc with_released] in *;
+        try congruence; auto; try discriminate;
+        try (match goal with Hq : k_st _ = _ |- _ => rewrite Hq in Epm; discriminate end).
+      destruct (k_final x); match goal with Hq : k_st _ = _ |- _ => rewrite Hq in Epm; discriminate end. }
+    assert (Hev : ev_task e = Some kf).
+    { destruct (tstepE_only _ _ _ _ Hts) as [E|E]; [rewrite E in Hpm; congruence|].
+      now rewrite (find_task_some_id _ _ _ Hf) in E. }
+    intros k x' Hx' Hxt Hxk.
+    destruct (Z.eq_dec k kf) as [->|Hne].
+    { rewrite Hf' in Hx'. injection Hx' as <-. destruct (k_st f'); try reflexivity; discriminate. }
+    destruct (task_origin _ _ _ _ _ H Hx') as [(x & Hx & Hxts)|(_ & t1 & g & a & fin & deps & kind & _ & ->)].
+    2:{ cbn. destruct (stage_eqb g SInline); reflexivity. }
+    destruct (tstepE_only _ _ _ _ Hxts) as [->|E].
+    + apply (final_running_calm s kf f B Hf Hfin Hst k x Hx); [congruence|exact Hxk|exact Hne].
+    + rewrite (find_task_some_id _ _ _ Hx) in E. congruence.
+  - (* the submission task after its wait *)
+    destruct (task_origin _ _ _ _ _ H HS') as [(S & HS & Hts)|(_ & t1 & g & a & fin & deps & kind & _ & ->)].
+    2:{ cbn in Hp. lia. }
+    statics Hts. rewrite St in Ht. rewrite Skind in Hk.
+    destruct (Z_le_dec 4 (k_phase S)) as [Hge|Hlt].
+    { apply Hold. right; left. eauto 10. }
+    assert (Hw : e = EWaitAll kS /\ busy s kS = false /\ all_assoc_done s t = true).
+    { pose proof (find_task_some_id _ _ _ HS) as Hid.
+      destruct Hts; cbn [k_phase with_st with_flags with_phase with_permit with_assoc with_released] in *;
+        try lia.
+      - destruct tr; lia.
+      - subst. auto. }
+    destruct Hw as (-> & Hnb & Hall).
+    destruct B as [_ BT BW _ _ _ _ _].
+    intros k x' Hx' Hxt Hxk.
+    destruct (task_origin _ _ _ _ _ H Hx') as [(x & Hx & Hxts)|(_ & t1 & g & a & fin & deps & kind & E & _)]; [|discriminate].
+    statics Hxts.
+    assert (Hs : settled x) by (eapply (waitall_settled s t kS S); eauto; congruence).
+    destruct (tstepE_only _ _ _ _ Hxts) as [->|E].
+    + destruct Hs as [->|[_ ->]]; reflexivity.
+    + cbn in E. injection E as E. rewrite (find_task_some_id _ _ _ Hx) in E. subst k.
+      rewrite HS in Hx. injection Hx as <-. congruence.
+  - (* the coordinator *)
+    destruct (coord_origin _ _ _ _ _ H Hc') as [(c & Hc & Hcs)|(_ & ->)].
+    2:{ cbn in Hor. destruct Hor; congruence. }
+    destruct (c_ann_started c) eqn:Est.
+    { apply Hold. right; right. eauto. }
+    destruct (c_owing c) eqn:Eow.
+    2:{ apply Hold. right; right. exists c. split; [exact Hc|]. left. rewrite Eow. discriminate. }
+    destruct Hcs; cbn in Hor; try (rewrite ?Est, ?Eow in Hor; destruct Hor; congruence).
+    + (* cancel at not-started: only the submission task exists *)
+      assert (Hu : unstarted s t) by (unfold unstarted; rewrite Hc; assumption).
+      destruct (bi_ns s B t Hu) as [Hts _ _].
+      eapply calm_step; [|exact H|intros (k & Hk); discriminate].
+      intros k x Hx Hxt Hxk. destruct (Hts k x Hx Hxt). contradiction.
+    + (* owing announcer *) rewrite Eow in *. discriminate.
+    + (* announce by the submission task or the final task *)
+      apply Hold.
+      match goal with Hx : find_task a (tasks s) = Some ?x, Hd : _ \/ _ |- _ =>
+        destruct Hd as [(Hk & Hst & Hph)|(Hk & Hst & Hfin)];
+        [right; left; exists a, x; repeat split; auto; lia
+        |left; exists a, x; repeat split; auto; rewrite Hst; reflexivity] end.
+Qed.
+
+Section Reach3.
+Variables w_sub w_req q_sub q_req q_io up down : Z.
+(** the IO executor has a single worker (s3transfer's [IOTaskExecutor]: max_workers = 1) *)
+Let s0 := init w_sub w_req 1 q_sub q_req q_io up down.
+
+Lemma base_inv_reachable s : reachable s0 s -> base_inv s.
+Proof.
+  intros R. revert s R. apply invariant_reachable.
+  - constructor.
+    + split; [|split; [|split]]; intros ? ? Hf; discriminate Hf.
+    + split; intros; discriminate.
+    + intros k x Hx. discriminate.
+    + intros kf f k x Hf. discriminate.
+    + intros k x d Hx. discriminate.
+    + intros _. left. split; [reflexivity|]. intros k x Hx. discriminate.
+    + reflexivity.
+    + intros t _. constructor; [intros; discriminate|intros q []|intros u []].
+  - intros; eapply base_inv_step; eauto.
+Qed.
+
+Lemma calm_inv_reachable s : reachable s0 s -> calm_inv s.
+Proof.
+  apply (invariant_reachable2 base_inv).
+  - apply base_inv_reachable.
+  - intros t [(kf & f & Hf & _)|[(kS & S & HS & _)|(c & Hc & _)]]; discriminate.
+  - intros; eapply calm_inv_step; eauto.
+Qed.
+
+(** T3 *)
+Theorem unassoc_has_busy_parent s k x :
+  reachable s0 s -> find_task k (tasks s) = Some x ->
+  k_kind x <> KSubmission -> k_stage x <> SInline -> k_assoc x = 0 ->
+  exists p, find_task (k_parent x) (tasks s) = Some p /\ k_t p = k_t x /\
+            (k_st p = TMain \/ k_st p = TPost) /\ busy s (k_parent x) = true /\ k_parent x < k.
+Proof.
+  intros R Hx Hk Hs Ha. destruct (base_inv_reachable s R) as [_ [TB _] W _ _ _ _ _].
+  assert (Hh : holds_parent x = true) by (apply holds_parent_spec; right; auto).
+  destruct (W k x Hx Hh) as (p & Hp & Hpt & Hpa). exists p. repeat split; auto.
+  - eapply holds_parent_busy; eauto.
+  - destruct (TB k x Hx) as [_ B2 _ _ _ _ _ _]. destruct (B2 Hk) as (_ & Hlt & _).
+    now rewrite (find_task_some_id _ _ _ Hx) in Hlt.
+Qed.
+
+Theorem ended_is_absorbing s e s' k x x' :
+  step s e = Some s' -> find_task k (tasks s) = Some x -> find_task k (tasks s') = Some x' ->
+  k_st x = TEnded -> k_st x' = TEnded.
+Proof.
+  intros H Hx Hx' He. destruct (task_persists _ _ _ _ _ H Hx) as (x'' & Hx'' & Hts).
+  rewrite Hx' in Hx''. injection Hx'' as <-. eapply ended_is_absorbing_step; eauto.
+Qed.
+
+Theorem past_main_monotone s e s' k x x' :
+  step s e = Some s' -> find_task k (tasks s) = Some x -> find_task k (tasks s') = Some x' ->
+  past_main (k_st x) = true -> past_main (k_st x') = true.
+Proof.
+  intros H Hx Hx' He. destruct (task_persists _ _ _ _ _ H Hx) as (x'' & Hx'' & Hts).
+  rewrite Hx' in Hx''. injection Hx'' as <-. eapply past_main_monotone_step; eauto.
+Qed.
+
+(** at most one IO task is started and not ended *)
+Theorem io_exclusive s k1 x1 k2 x2 :
+  reachable s0 s -> find_task k1 (tasks s) = Some x1 -> find_task k2 (tasks s) = Some x2 ->
+  io_active x1 = true -> io_active x2 = true -> k1 = k2.
+Proof.
+  intros R H1 H2 A1 A2. destruct (base_inv_reachable s R) as [_ _ _ _ _ BIO BW _].
+  destruct (BIO BW) as [[_ Hno]|[_ (k0 & Hk0)]].
+  - rewrite (Hno k1 x1 H1) in A1. discriminate.
+  - rewrite (Hk0 k1 x1 H1 A1), (Hk0 k2 x2 H2 A2). reflexivity.
+Qed.
+
+(** T4: once an announce has begun (or a canceller owes one) for transfer [t],
+    the coordinator is done and no task of [t] other than the submission task
+    is in (or about to enter) its main -- now and in every later state *)
+Theorem announce_quiescent s t c :
+  reachable s0 s -> find_coord t (coords s) = Some c ->
+  c_ann_started c = true \/ c_owing c <> [] ->
+  is_done (c_status c) = true /\
+  (forall k x, find_task k (tasks s) = Some x -> k_t x = t -> k_kind x <> KSubmission ->
+               k_st x <> TReady /\ k_st x <> TMain) /\
+  (forall tr s2, run s tr = Some s2 ->
+     coord_done s2 t = true /\
+     forall k x, find_task k (tasks s2) = Some x -> k_t x = t -> k_kind x <> KSubmission ->
+                 k_st x <> TReady /\ k_st x <> TMain).
+Proof.
+  intros R Hc Hor.
+  assert (Hcause : ann_cause s t) by (right; right; exists c; tauto).
+  assert (Hcalm : forall s1, calm s1 t -> forall k x, find_task k (tasks s1) = Some x -> k_t x = t ->
+            k_kind x <> KSubmission -> k_st x <> TReady /\ k_st x <> TMain).
+  { intros s1 C k x Hx Ht Hk. pose proof (C k x Hx Ht Hk) as Hh.
+    split; intros E; rewrite E in Hh; discriminate. }
+  pose proof (ann_cause_done s t (bi_t1 _ (base_inv_reachable s R)) Hcause) as Hd.
+  split; [unfold coord_done in Hd; now rewrite Hc in Hd|].
+  split; [apply Hcalm; apply (calm_inv_reachable s R); exact Hcause|].
+  assert (G : forall tr s1, calm s1 t -> coord_done s1 t = true -> forall s2, run s1 tr = Some s2 ->
+              calm s2 t /\ coord_done s2 t = true).
+  { induction tr as [|ev tr IH]; intros s1 C D s2 Hrun; cbn [run] in Hrun.
+    - injection Hrun as <-. auto.
+    - destruct (step s1 ev) as [s1'|] eqn:Es; [|discriminate].
+      eapply IH; [| |exact Hrun].
+      + eapply calm_step; eauto.
+      + eapply coord_done_step; eauto. }
+  intros tr s2 Hrun.
+  destruct (G tr s (calm_inv_reachable s R t Hcause) Hd s2 Hrun) as [C2 D2].
+  split; [exact D2|apply Hcalm; exact C2].
+Qed.
+End Reach3.
